@@ -127,7 +127,7 @@ def cmp_helper_attrs(rng, derived_cmp, allow_invalid=False):
             break
     else:
         return []
-    key = {a: rng.choice(["$.0", "k(&$)", "$.len()", "{ let x = &$; x.k() }", "f($.0, [$.1])", "$"]) for a in M.ATTRS}
+    key = {a: rng.choice(["$.0", "k(&$)", "$.len()", "{ let x = &$; x.k() }", "f($.0, [$.1])", "$", "g(&$, \"two  spaces\")", "($, ' ').0"]) for a in M.ATTRS}
     by = {"ord": "cmp_fn", "partial_ord": "|a, b| a.partial_cmp(b)", "eq": "eq_fn", "partial_eq": "|a, b| a == b",
           "hash": "hash_fn"}
     out = []
@@ -166,7 +166,9 @@ def field_helper_attrs(rng, derived, position_ok_transparent):
         else:
             out.append(A(f"#[debug({rand_bound(rng)})]", "debug"))
     if "Default" in derived and rng.random() < 0.3:
-        v = rng.choice(["5", "\"abc\"", "S", "T::new()", "_", "-1", "{ 1 + 2 }", "Self::K", "Default::default()"])
+        # literals whose spelling contains runs of whitespace / escapes: they have to come through expansion and dump as written
+        v = rng.choice(["5", "\"abc\"", "S", "T::new()", "_", "-1", "{ 1 + 2 }", "Self::K", "Default::default()",
+                        "\"a  b\"", "\"tab\\there   x\"", "' '", "r\"raw   \\ str\"", "b\"by  tes\"", "f(\"x   y\", ' ')"])
         b = ", " + rand_bound(rng) if rng.random() < 0.3 else ""
         out.append(A(f"#[default({v}{b})]", "default"))
     if rng.random() < 0.15 and derived:
